@@ -3,6 +3,7 @@ view-control sequences; at every frame marker the terminal model's screen is pai
 that frame (view state + per-aircraft data) into a `screen` event judged by TLC against Trace_Screen."""
 import concurrent.futures as cf
 import json
+import math
 import os
 import random
 import re
@@ -29,10 +30,14 @@ def aircraft(rng, rx, quadrant, with_position=True, cs=None):
         fr += [track_checks.f_pos(rng, addr, lat, lon, 0, alt), track_checks.f_pos(rng, addr, lat, lon, 1, alt)]
         if rng.random() < 0.5:
             fr.append(track_checks.f_vel(rng, addr, (rng.randrange(2), rng.randrange(1, 400)), (rng.randrange(2), rng.randrange(1, 400)), (0, 9)))
+    LAST_AIRCRAFT[:] = [lat, lon, with_position]
     return b"".join(b"*" + bytes(f).hex().encode() + b";\n" for f in fr)
 
 
-def parse_screen(rows, draw):
+LAST_AIRCRAFT = [0.0, 0.0, False]
+
+
+def parse_screen(rows, draw, fg=None):
     """projection of the reconstructed screen: title counts, table cells, stats values, label positions"""
     ev = {}
     bar = rows[2] if len(rows) > 2 else ""
@@ -61,6 +66,21 @@ def parse_screen(rows, draw):
                 most = int(m.group(2)) if m.group(2) else 0
         if tot is not None and most is not None:
             ev["stats_valid"], ev["stats_total"], ev["stats_most"] = 1, tot, most
+    # Map: the cells holding blue canvas dots (an aircraft's own dot and its heading wings are the only blue things drawn)
+    ev["blue"] = []
+    if draw["tab"] == 0 and fg is not None:
+        for ri, r in enumerate(rows):
+            for ci, ch in enumerate(r):
+                if 0x2800 < ord(ch) <= 0x28ff and fg[ri][ci] == 4:
+                    ev["blue"].append([ci, ri])
+        ev["blue"] = ev["blue"][:600]
+        # ... and the cells of the map holding text (labels are printed over the dots and can hide one)
+        ev["text"] = []
+        for ri, r in enumerate(rows[5:-2], start=5):
+            for ci, ch in enumerate(r[1:-1], start=1):
+                if ch not in " │─┌┐└┘" and not (0x2800 <= ord(ch) <= 0x28ff):
+                    ev["text"].append([ci, ri])
+        ev["text"] = ev["text"][:1500]
     ev["labels"] = []
     if draw["tab"] == 0:
         for p in draw["planes"]:
@@ -87,9 +107,29 @@ def session(bindir, rng, tag, tier):
         rd.wait_frames(2, 6)
         n_air = rng.randrange(1, 7)
         marks = []
+        positioned_first = None
         for i in range(n_air):
             srv.push(aircraft(rng, rx, i % 4, with_position=rng.random() < 0.8))
+            if positioned_first is None and LAST_AIRCRAFT[2]:
+                positioned_first = (LAST_AIRCRAFT[0], LAST_AIRCRAFT[1])
             rd.wait_frames(rd.frame_count() + 4, 3)
+        if not expiry and positioned_first is not None:
+            # bring one aircraft close to the upper edge of the map, then to the lower one: everything in view is drawn
+            lat_a = positioned_first[0]
+            per_press = 0.005
+            units_lat = 166.7 / max(math.cos(math.radians((lat_a + rx[0]) / 2)), 0.2)
+            y0 = (lat_a - rx[0]) * units_lat
+            for target, key in ((rng.uniform(382, 389), "Down"), (rng.uniform(-389, -382), "Up")):
+                n = round(abs(target - y0) / (per_press * units_lat))
+                if 0 < n < 900:
+                    rd.send(apps.KEYS["F1"]); rd.wait_frames(rd.frame_count() + 1, 2)
+                    rd.send(apps.KEYS["Enter"]); rd.wait_frames(rd.frame_count() + 1, 2)
+                    for i in range(0, n, 100):
+                        rd.send(apps.KEYS[key] * min(100, n - i))
+                        rd.wait_frames(rd.frame_count() + 1, 2)
+                    rd.wait_frames(rd.frame_count() + 2, 2)
+                    marks.append(rd.frame_count())
+            rd.send(apps.KEYS["Enter"]); rd.wait_frames(rd.frame_count() + 1, 2)
         if expiry:
             rd.send(apps.KEYS["F4"])
             rd.wait_frames(rd.frame_count() + 2, 3)
@@ -130,7 +170,7 @@ def session(bindir, rng, tag, tier):
             marks.append(rd.frame_count())
         rd.send(apps.KEYS["q"])
         rd.wait_exit(4)
-        snaps = vt.snapshots(rd.out, size[0], size[1])
+        snaps, snaps_fg = vt.snapshots_with_colour(rd.out, size[0], size[1])
         hook = rd.events()
         draws = {e["frame"]: e for e in hook if e.get("ev") == "draw"}
         out = [{"ev": "session_start", "tag": tag, "expiry": 1 if expiry else 0}]
@@ -146,7 +186,7 @@ def session(bindir, rng, tag, tier):
                     out.append({"ev": "expiry_possible"})
                 ev = {"ev": "screen", "frame": d["frame"], "tab": d["tab"], "sel": d["sel"], "w": d["w"], "h": d["h"], "scale9": d["scale9"],
                       "lat": d["lat"], "long": d["long"], "clat": d["clat"], "clong": d["clong"], "planes": d["planes"]}
-                ev.update(parse_screen(snaps[d["frame"]], d))
+                ev.update(parse_screen(snaps[d["frame"]], d, snaps_fg.get(d["frame"])))
                 out.append(ev)
         return out
     finally:
